@@ -21,6 +21,11 @@ func readArrayWithType(ctx context.Context, read stdio.Io, callback func(any, st
 	var v any
 	unmarshaller(b, &v)
 
+	// an empty root element (what an empty list is written as) has no elements
+	if s, ok := v.(string); ok && s == "" {
+		return nil
+	}
+
 	r, ok := v.(map[string]any)
 	if !ok || len(r) != 1 {
 		return lang.ArrayDataWithTypeTemplate(ctx, typeName, marshaller, unmarshaller, v, callback)
